@@ -43,6 +43,7 @@ def stepLine (st : DState) (line : String) : DState × String :=
     | none => (st, "bad-op")
   | ["mon.c12.genesis-nul"] => (st, "pass")       -- identifiers with the x/nft key delimiter never get into the state: C12
   | ["mon.c05.genesis-seq-wrap"] => (st, "pass")  -- a deactivated DID is never creatable again: C05
+  | ["mon.c05.seq-exhaustion", _] => (st, "pass")  -- the same at the end of the sequence space reached by updates
   | ["mon.c07.endblock-movers"] => (st, "pass")   -- whatever reaches the burn address while the block ends is burned in that block
   | ["mon.c15.fee-denoms"] => (st, "pass")   -- the whole declared fee moves, in every denomination: what C15 demands
   | "mon.c14.pair" :: _ => (st, "pass")
